@@ -2762,6 +2762,218 @@ theorem isValueError_eq {r : Except PyExc Path} (h : isValueError r = true) : r 
   · rfl
   · cases h
 
+/-! ### printing the re-parsed path gives the same text again (the printed form is a normal form) -/
+
+theorem caseOf_idem {T : Tab} (hT : TabOk T) (fmt : Fmt) (s : Str) : caseOf T fmt (caseOf T fmt s) = caseOf T fmt s := by
+  unfold caseOf; split
+  · exact hT.lower_idem s
+  · rfl
+
+theorem fixExp_idem (r : Str) : fixExp (fixExp r) = fixExp r := by
+  by_cases h : (r.contains 'e' && !r.contains '.') = true
+  · have e1 : fixExp r = replaceChar 'e' ['.', '0', 'e'] r := by unfold fixExp; rw [if_pos h]
+    have hdot : (replaceChar 'e' ['.', '0', 'e'] r).contains '.' = true := by
+      simp only [Bool.and_eq_true, List.contains_eq_mem, decide_eq_true_eq] at h
+      simp only [List.contains_eq_mem, decide_eq_true_eq, replaceChar, List.mem_flatMap]
+      exact ⟨'e', h.1, by simp⟩
+    rw [e1]
+    have hn : ¬ (((replaceChar 'e' ['.', '0', 'e'] r).contains 'e' && !(replaceChar 'e' ['.', '0', 'e'] r).contains '.') = true) := by
+      rw [hdot]; simp
+    unfold fixExp; rw [if_neg hn]
+  · have e1 : fixExp r = r := by unfold fixExp; rw [if_neg h]
+    rw [e1, e1]
+
+theorem lookupFold_map {T : Tab} (g : Str → Str) : ∀ (l : List Str), ((l.map T.foldS).Nodup) → ∀ k ∈ l,
+    lookupFold T k (l.map (fun k => (k, g k))) = some (g k)
+  | [], _, k, hk => by simp at hk
+  | a :: r, hnd, k, hk => by
+    simp only [List.map_cons, List.nodup_cons] at hnd
+    simp only [List.map_cons, lookupFold]
+    rcases List.mem_cons.mp hk with rfl | hm
+    · simp
+    · have hne : T.foldS a ≠ T.foldS k := by
+        intro e; exact hnd.1 (by rw [e]; exact List.mem_map_of_mem hm)
+      simp only [hne, if_false]
+      exact lookupFold_map g r hnd.2 k hm
+
+theorem printKeys_ofList (T : Tab) (fmt : Fmt) : ∀ l : List (Str × KeyVal),
+    printKeys T fmt (Keys.ofList l) = l.map (fun kv => (kv.1, printVal T fmt kv.2))
+  | [] => rfl
+  | (k, v) :: r => by simp [Keys.ofList, printKeys, printKeys_ofList T fmt r]
+
+theorem headStr_norm {T : Tab} (hT : TabOk T) {fmt : Fmt} (hf : fmt ≠ .cimobject) (h n : Option Str) (c : Str) :
+    headStr T fmt (parsedHost T fmt h) (n.map (caseOf T fmt)) (caseOf T fmt c) = headStr T fmt h n c := by
+  have hp : parsedHost T fmt h = h.map (caseOf T fmt) := by simp [parsedHost, hf]
+  rw [hp]
+  cases h <;> cases n <;> simp [headStr, caseOf_idem hT, optStr]
+
+/-- the sorted, cased names of a well-formed key set: distinct after casefold, sorted, and their values are found -/
+theorem sortedNames_props {T : Tab} (hT : TabOk T) (fmt : Fmt) {ks : Keys} (hnd : (foldNames T ks).Nodup) :
+    ((sortedNames T fmt ks).map T.foldS).Nodup ∧ (sortedNames T fmt ks).Pairwise (fun x y => strLe x y = true) ∧
+    ∀ k ∈ sortedNames T fmt ks, ∃ v, lookupKV T k ks = some v := by
+  refine ⟨?_, sortStrs_sorted _, ?_⟩
+  · have hp : ((sortedNames T fmt ks).map T.foldS).Perm ((ks.names.map (caseOf T fmt)).map T.foldS) := (sortStrs_perm _).map _
+    have he : (ks.names.map (caseOf T fmt)).map T.foldS = foldNames T ks := by
+      simp [foldNames, List.map_map, Function.comp_def, fold_case hT]
+    rw [he] at hp
+    exact hp.nodup_iff.mpr hnd
+  · intro k hk
+    have := (sortStrs_perm _).mem_iff.mp hk
+    simp only [List.mem_map] at this
+    obtain ⟨k0, hk0, rfl⟩ := this
+    exact lookupKV_exists ks hk0 _ (fold_case hT fmt k0)
+
+/-- one level: given that every value prints the same after normalisation -/
+theorem body_norm {T : Tab} (hT : TabOk T) (fmt : Fmt) {ks : Keys} (hnd : (foldNames T ks).Nodup)
+    (hv : ∀ k v, lookupKV T k ks = some v → printVal T fmt (normVal T fmt v) = printVal T fmt v) :
+    bodyStr T fmt (printKeys T fmt (sortKeys T fmt (normKeys T fmt ks))) = bodyStr T fmt (printKeys T fmt ks) := by
+  obtain ⟨hfn, hsorted, hfound⟩ := sortedNames_props hT fmt hnd
+  cases ks with
+  | nil => simp [sortKeys, sortedNames, normKeys, Keys.names, sortStrs, Keys.ofList, printKeys]
+  | cons k0 v0 r0 =>
+    generalize hks : Keys.cons k0 v0 r0 = ks at *
+    have hne : printKeys T fmt ks ≠ [] := by rw [← hks]; simp [printKeys]
+    generalize hL : sortedNames T fmt ks = L at hfn hsorted hfound
+    have hLne : L ≠ [] := by
+      intro e
+      have := (sortStrs_perm (ks.names.map (caseOf T fmt))).length_eq
+      rw [← hks] at this
+      rw [← hL] at e; simp only [sortedNames] at e
+      rw [← hks] at e; rw [e] at this; simp [Keys.names] at this
+    -- the normalised keys, printed
+    have hprint : printKeys T fmt (sortKeys T fmt (normKeys T fmt ks)) =
+        L.map (fun k => (k, printVal T fmt ((lookupKV T k (normKeys T fmt ks)).getD (.bool false)))) := by
+      simp only [sortKeys, printKeys_ofList, List.map_map]
+      have : sortedNames T fmt (normKeys T fmt ks) = L := by rw [← hL]; simp [sortedNames, normKeys_names]
+      rw [this]; rfl
+    rw [hprint]
+    -- left side: sorted again = L; each lookup finds its own entry
+    have hbodyL : bodyStr T fmt (L.map (fun k => (k, printVal T fmt ((lookupKV T k (normKeys T fmt ks)).getD (.bool false))))) =
+        '.' :: joinComma (L.map (fun k => k ++ '=' :: printVal T fmt ((lookupKV T k (normKeys T fmt ks)).getD (.bool false)))) := by
+      unfold bodyStr
+      split
+      · rename_i e; simp at e; exact absurd e hLne
+      · simp only [List.map_map, Function.comp_def]
+        have hcase : L.map (fun k => caseOf T fmt k) = L := by
+          have : ∀ k ∈ L, caseOf T fmt k = k := by
+            intro k hk
+            rw [← hL] at hk
+            have := (sortStrs_perm _).mem_iff.mp hk
+            simp only [List.mem_map] at this
+            obtain ⟨k0', _, rfl⟩ := this
+            exact caseOf_idem hT fmt k0'
+          exact (List.map_congr_left this).trans (List.map_id _)
+        rw [hcase, sortStrs_of_sorted hsorted]
+        congr 2
+        apply List.map_congr_left
+        intro k hk
+        rw [lookupFold_map (T := T) (fun k => printVal T fmt ((lookupKV T k (normKeys T fmt ks)).getD (.bool false))) L hfn k hk]
+        rfl
+    rw [hbodyL]
+    -- right side
+    have hbodyR : bodyStr T fmt (printKeys T fmt ks) =
+        '.' :: joinComma (L.map (fun k => k ++ '=' :: (lookupFold T k (printKeys T fmt ks)).getD [])) := by
+      unfold bodyStr
+      split
+      · rename_i e; exact absurd e hne
+      · rw [← hL]; simp only [sortedNames]
+        rw [← printKeys_names T fmt ks, List.map_map]
+        rfl
+    rw [hbodyR]
+    congr 2
+    apply List.map_congr_left
+    intro k hk
+    obtain ⟨v, hvk⟩ := hfound k hk
+    rw [lookupFold_printKeys, lookupKV_normKeys, hvk]
+    simp [hv k v hvk]
+
+mutual
+theorem val_second {T : Tab} (hT : TabOk T) {fmt : Fmt} (hf : fmt ≠ .cimobject) :
+    (v : KeyVal) → ValWF T v → printVal T fmt (normVal T fmt v) = printVal T fmt v
+  | .str _, _ => by simp [normVal]
+  | .bool _, _ => by simp [normVal]
+  | .int _, _ => by simp [normVal]
+  | .dt _, _ => by simp [normVal]
+  | .real r, _ => by simp [normVal, printVal, fixExp_idem]
+  | .ref q, h => by
+    simp only [normVal, printVal]
+    rw [path_second hT hf q (by simpa [ValWF] using h)]
+theorem path_second {T : Tab} (hT : TabOk T) {fmt : Fmt} (hf : fmt ≠ .cimobject) :
+    (p : Path) → PathWF T p → toUri T fmt (normPath T fmt p) = toUri T fmt p
+  | .mk h n c ks, hw => by
+    have hw' : (foldNames T ks).Nodup ∧ KeysWF T ks := by simpa [PathWF] using hw
+    simp only [normPath, toUri]
+    rw [headStr_norm hT hf, body_norm hT fmt hw'.1 (keys_second hT hf ks hw'.2)]
+theorem keys_second {T : Tab} (hT : TabOk T) {fmt : Fmt} (hf : fmt ≠ .cimobject) :
+    (ks : Keys) → KeysWF T ks → ∀ k v, lookupKV T k ks = some v → printVal T fmt (normVal T fmt v) = printVal T fmt v
+  | .nil, _, k, v, h => by simp [lookupKV] at h
+  | .cons k' v' r, hw, k, v, h => by
+    have hw' : ValWF T v' ∧ KeysWF T r := by simpa [KeysWF] using hw
+    simp only [lookupKV] at h
+    split at h
+    · cases h; exact val_second hT hf v' hw'.1
+    · exact keys_second hT hf r hw'.2 k v h
+end
+
+/-! ### spellings the parser tolerates: namespace type (scheme), optional leading slash, optional leading colon -/
+
+/-- the parse depends on the text only through `parseHead` -/
+theorem fromUriStep_congr {T : Tab} {rec : Str → Except PyExc Path} {s1 s2 : Str} (h : parseHead T s1 = parseHead T s2) :
+    fromUriStep T rec s1 = fromUriStep T rec s2 := by
+  unfold fromUriStep stepPrefix
+  rw [h]
+
+/-- `from_wbem_uri` with any fuel above the text length -/
+theorem fromUri_eq_fuel (T : Tab) (s : Str) {n : Nat} (hn : s.length < n) : fromUriF T n s = fromUri T s := by
+  unfold fromUri
+  have ht := fromUriF_total T (s.length + 1) s (by omega)
+  apply fromUriF_mono T (by omega)
+  intro e; rw [e] at ht; simp [OnlyValueError] at ht
+
+theorem fromUri_congr {T : Tab} {s1 s2 : Str} (h : parseHead T s1 = parseHead T s2) : fromUri T s1 = fromUri T s2 := by
+  rw [← fromUri_eq_fuel T s1 (n := s1.length + s2.length + 1) (by omega),
+      ← fromUri_eq_fuel T s2 (n := s1.length + s2.length + 1) (by omega)]
+  simp only [fromUriF]
+  exact fromUriStep_congr h
+
+theorem fromUriClass_congr {T : Tab} {s1 s2 : Str} (h : parseHead T s1 = parseHead T s2) :
+    fromUriClass T s1 = fromUriClass T s2 := by
+  unfold fromUriClass; rw [h]
+
+/-- a namespace type (URI scheme) in front of a URI that starts with `/` changes nothing -/
+theorem parseHead_scheme {T : Tab} (hT : TabOk T) {sch : Str} (hne : sch ≠ [])
+    (hall : ∀ c ∈ sch, schemeChar T c = true) (r : Str) :
+    parseHead T (sch ++ ':' :: '/' :: r) = parseHead T ('/' :: r) := by
+  have sc_co : schemeChar T ':' = false := by simp [schemeChar, hT.not_word ':' (by simp)]
+  have sc_sl : schemeChar T '/' = false := by simp [schemeChar, hT.not_word '/' (by simp)]
+  have h1 : stripScheme T (sch ++ ':' :: '/' :: r) = (true, '/' :: r) := by
+    unfold stripScheme
+    rw [dropWhile_stop hall sc_co, takeWhile_stop hall sc_co]
+    simp [hne]
+  have h2 : stripScheme T ('/' :: r) = (false, '/' :: r) := stripScheme_none (by intro r'; simp [sc_sl])
+  unfold parseHead
+  rw [h1, h2]
+  -- after the authority stage the text starts with '/' or the `^` alternative is dead on both sides
+  simp only
+  cases r with
+  | nil => simp [stripAuth, stripSlash]
+  | cons x xs =>
+    by_cases hx : x = '/'
+    · subst hx; simp [stripAuth, stripSlash]
+    · have ha : stripAuth T ('/' :: x :: xs) = (none, '/' :: x :: xs) := stripAuth_none (by intro r' he; simp at he; exact hx he.1)
+      rw [ha]; simp [stripSlash]
+
+/-- the leading slash of a local URI is optional, and so is the colon before the class name at the very start -/
+theorem parseHead_local_spellings {T : Tab} (hT : TabOk T) {N : Option Str} {C tail : Str} (hN : NsPart T N) (hc : ClsTail T C tail) :
+    parseHead T ('/' :: (optStr N ++ ':' :: (C ++ tail))) = parseHead T (optStr N ++ ':' :: (C ++ tail)) ∧
+    (N = none → parseHead T (C ++ tail) = parseHead T (':' :: (C ++ tail))) := by
+  constructor
+  · rw [parseHead_formB hT hN hc, parseHead_formD hT hN hc]
+  · intro h; subst h
+    have := parseHead_formD hT (N := none) (C := C) (tail := tail) (by intro m hm; cases hm) hc
+    rw [parseHead_formE hT hc]
+    simpa [optStr] using this.symm
+
 /-! ### glue: format argument, namespace setter -/
 
 theorem formats_pin : Pywbem.Generated.uriFormats = ["standard", "canonical", "cimobject", "historical"] := by decide
@@ -2834,5 +3046,9 @@ theorem TabOk.of_char {T : Tab} (h : TabOkChar T) : TabOk T where
   not_word := h.not_word
   digit_word := h.digit_word
   lower_ascii := h.lower_ascii
+
+/-- the double quote character (a name for it keeps character literals with a quote out of Proofs/Props/C07.lean, whose
+    theorem list is extracted with a regular expression) -/
+def dq : Char := '"'
 
 end Proofs.Uri
